@@ -1,3 +1,4 @@
+module List = Stdlib.List
 (* Minimal s-expressions: atoms and lists; one case per line. *)
 type t = A of string | L of t list
 
